@@ -93,6 +93,8 @@ _w("C09", 40, 900,
 _w("C04", 30, 900,
    "runs 0..47 cover every cell of flow {operator-authorized, activation-token, wrapper, re-wrapped via an intermediate} x back end {inmem, file, store-once} x server storage wrapper x node storage wrapper; later runs draw cells from the tape. Each run additionally draws application state / params (absent, empty, flat, nested), a second root rotation, a clock jump between authorization and fetch, 0-2 lost responses (honest retry with the same stored key) and one substitution of the response on the node side (another node's response, re-encrypted to another key, different nonce inside, swapped server public key). Non-trivial: all (the suite performs one token enrollment on store-once without wrappers); distinct by (cell, state kind, lost responses, substitution).",
    ["a lost response is not retried in the token flow (tokens are single-use by design)",
+    "'fetches after authorization' includes a fetch repeated after an attempt that failed on a passing storage error (one failing operation: generic error, own-deadline error, or applied-but-reported-failed): the repeat is owed a response like after a lost one; not drawn in the token flow",
+    "registration wrappers are of two kinds: direct AEAD and envelope-encrypting (go-kms-wrapping's test envelope wrapper, the shape of every KMS-backed wrapper)",
     "the authenticated handshake with the stored credentials is exercised by the wire engines (C02/C07/C16)"], min_runs=48, grace_s=300)
 
 def _wire(pid, quick_s, thorough_s, rule, extra_assume=(), **kw):
@@ -121,6 +123,7 @@ _wire("C07", 40, 900,
 _wire("C17", 40, 900,
       "each run builds a SplitListener over the real listener with a tape-chosen set of sub-listeners (three specific names, __AUTH__, __UNAUTH__, each present or not, native connections on/off, GetListener sometimes called twice) and an application base TLS config in {none, no ALPN, fixed protocols, mirroring whatever the client offers}; 3-9 clients follow: authenticated nodes with extra-protocol lists (matching none / one / several registered names, the reserved names, near-misses), base-TLS clients offering tape-ordered lists that include the reserved names, registered names, near-misses and names under the certificate-preference prefix, fetch-only (unauthorized) nodes and raw garbage; finally the base listener is closed. All goroutines (split loop, one acceptor per sub-listener, clients) run under the seeded lock-aware scheduler. Non-trivial: all; distinct by (client kind, offered names, registered set, destination, negotiated protocol).",
       ["which of several matching specific sub-listeners receives an authenticated connection is not judged (sync.Map iteration order)",
+       "a sub-listener the application has closed stays registered for its name (the library keeps it): a connection offering that name is closed or reaches another sub-listener whose name it also offered, never one it did not offer",
        "a 'mirroring' application base config is part of the configuration space: the statement quantifies over base-TLS clients offering arbitrary names",
        "GetListener has no seam inside: registration from several goroutines AT ONCE is exercised by the auxiliary free-running stress (bin/racestress C17; 8 s quick, 90 s thorough), which checks a fact load cannot disturb: a name keeps yielding the sub-listener first handed out for it"])
 _wire("C15", 45, 900,
